@@ -40,7 +40,7 @@ def validate_shards(
     next_: str = "TNext",
     view: str | None = None,
     timeout: int = 3600,
-    heap: str = "3g",
+    heap: str = "1200m",
     extra_env: dict | None = None,
     dfs_queue: bool = False,
     invariants: list[str] | None = None,
